@@ -589,7 +589,7 @@ func c19Explore(c *fw.Ctx, cs c19Case, bound int) {
 		c.HarnessError("C19 %s: %s", name, d)
 	}
 	if st.Deadlines > 0 {
-		c.HarnessError("C19 %s: %d executions hit the watchdog", name, st.Deadlines)
+		c.HarnessError("C19 %s: %d executions hit the watchdog (first at schedule %v)", name, st.Deadlines, st.DeadlineAt)
 	}
 	if st.Nondeterministic {
 		c.HarnessError("C19: replaying the default schedule gave a different execution (uncaptured nondeterminism)")
